@@ -414,7 +414,7 @@ def install_network(ncp, net: NetState | None = None, store: ConfigStore | None 
         meta.outgoing_frame_counter = t.uint32_t(e_["out_fc"] if e_ else 0)
         meta.incoming_frame_counter = t.uint32_t(e_["in_fc"] if e_ else 0)
         meta.ttl_in_seconds = t.uint16_t(0)
-        ctx = t.SecurityManagerContextV13.deserialize(bytes(17))[0]
+        ctx = t.SecurityManagerContextV13.deserialize(bytes(40))[0]
         ctx.core_key_type = t.SecurityManagerKeyType(0x04)
         ctx.key_index = t.uint8_t(i)
         if e_:
